@@ -1,11 +1,13 @@
 (** Executable comparison used by the C14 correspondence: a schedule is replayed on the
     model (at the grain the harness can realise, [Locks.macro]) and the (thread, event)
     trace is compared with the one the real code produced under the deterministic
-    scheduler.  Independently, the property is judged on the observed trace alone:
-    bodies never overlap and every reply read is the reader's own.
+    scheduler.  Independently, the property is judged on the observed trace alone by the
+    specification's judge ([model/LocksSpec.v]: bodies never overlap, every reply read is
+    the reader's own, none is lost) — the judge that [C14_trace_accepted] proves to accept
+    every trace of the model.
 
     [check]: 0 = agrees; 1 = differs from the model only; 2 = the observed trace
-    contradicts the property; 3 = both. *)
+    contradicts the property; 3 = both ([proofs/LocksTieProofs.v]: 2 never comes alone). *)
 From Coq Require Import List Arith Bool.
 Import ListNotations.
 From TI Require Import lib.Sched model.Locks model.LocksSpec.
